@@ -12,11 +12,8 @@ import (
 	"pgregory.net/rapid"
 
 	"github.com/wundergraph/graphql-go-tools/execution/graphql"
-	"github.com/wundergraph/graphql-go-tools/v2/pkg/astnormalization"
-	"github.com/wundergraph/graphql-go-tools/v2/pkg/astprinter"
-	"github.com/wundergraph/graphql-go-tools/v2/pkg/astvalidation"
-	"github.com/wundergraph/graphql-go-tools/v2/pkg/operationreport"
 
+	"verif/harness/internal/admit"
 	"verif/harness/internal/fedgen"
 	"verif/harness/internal/opgen"
 	"verif/harness/internal/opshrink"
@@ -57,82 +54,10 @@ func genNorm(t *rapid.T) normCase {
 
 var semPart = pbt.Part[normCase]{Name: "norm-semantic-valid-idempotent", Quick: 16000, Thorough: 320000, Gen: genNorm, Check: checkSem}
 
-type normalized struct {
-	Print string
-	Vars  map[string]any    // request variables after normalization (original + extracted names)
-	Remap map[string]string // canonical name → name in Vars
-}
+type normalized = admit.Normalized
 
-// canonVars reads the variables under their canonical names.
-func (n *normalized) canonVars() map[string]any {
-	out := map[string]any{}
-	for c, o := range n.Remap {
-		if v, ok := n.Vars[o]; ok {
-			out[c] = v
-		}
-	}
-	return out
-}
-
-// normalize runs the engine's normalization sequence (execution_engine.go Execute).
 func normalize(schema *graphql.Schema, op opgen.Op) (*normalized, string, error) {
-	req := graphql.Request{Query: op.Query, OperationName: op.OperationName}
-	if v := op.VarsJSON(); v != "" {
-		req.Variables = []byte(v)
-	}
-	res, err := req.Normalize(schema,
-		astnormalization.WithRemoveFragmentDefinitions(),
-		astnormalization.WithRemoveUnusedVariables(),
-		astnormalization.WithInlineFragmentSpreads(),
-		astnormalization.WithEnableDefer(),
-		astnormalization.WithPrevalidationRules(
-			astvalidation.DeferStreamOnValidOperations(),
-			astvalidation.DeferStreamHaveUniqueLabels(),
-			astvalidation.DirectivesAreInValidLocations(),
-			astvalidation.StreamAppliedToListFieldsOnly()),
-	)
-	if err != nil {
-		return nil, "normalize", err
-	}
-	if !res.Successful {
-		return nil, "normalize", res.Errors
-	}
-	vr, err := req.ValidateForSchema(schema)
-	if err != nil {
-		return nil, "validate", err
-	}
-	if !vr.Valid {
-		return nil, "validate", vr.Errors
-	}
-	res, err = req.Normalize(schema, astnormalization.WithExtractVariables())
-	if err != nil {
-		return nil, "extract", err
-	}
-	if !res.Successful {
-		return nil, "extract", res.Errors
-	}
-	var rep operationreport.Report
-	remap := astnormalization.NewVariablesMapper().NormalizeOperation(req.Document(), schema.Document(), &rep)
-	if rep.HasErrors() {
-		return nil, "remap", rep
-	}
-	s, err := astprinter.PrintString(req.Document())
-	if err != nil {
-		return nil, "print", err
-	}
-	n := &normalized{Print: s, Remap: remap, Vars: map[string]any{}}
-	if len(req.Variables) > 0 {
-		v, derr := ref.Decode(req.Variables)
-		if derr != nil {
-			return nil, "variables-json", fmt.Errorf("variables after normalization are not valid JSON: %v: %q", derr, req.Variables)
-		}
-		if m, ok := v.(map[string]any); ok {
-			n.Vars = m
-		} else if v != nil {
-			return nil, "variables-json", fmt.Errorf("variables after normalization are not an object: %q", req.Variables)
-		}
-	}
-	return n, "", nil
+	return admit.Normalize(schema, op)
 }
 
 func stripInternal(v any) any {
@@ -185,7 +110,7 @@ func checkSem(c normCase, o *pbt.Rec) pbt.Verdict {
 		return pbt.Bad("normalization sequence fails for a valid operation at stage %s: %v%s", stage, err, ctx())
 	}
 	// (2) validity of the normalized operation: gqlparser …
-	nop := opgen.Op{Query: n1.Print, Variables: n1.canonVars(), OperationName: ""}
+	nop := opgen.Op{Query: n1.Print, Variables: n1.CanonVars(), OperationName: ""}
 	if c.Op.OperationName != "" && strings.Contains(n1.Print, c.Op.OperationName) {
 		nop.OperationName = c.Op.OperationName
 	}
@@ -230,8 +155,8 @@ func checkSem(c normCase, o *pbt.Rec) pbt.Verdict {
 	if n2.Print != n1.Print {
 		return pbt.Bad("normalization is not idempotent\n first: %s\nsecond: %s%s", n1.Print, n2.Print, ctx())
 	}
-	if !ref.Equal(n2.canonVars(), n1.canonVars()) {
-		return pbt.Bad("normalization is not idempotent on variables\n first: %s\nsecond: %s%s", ref.Canon(n1.canonVars()), ref.Canon(n2.canonVars()), ctx())
+	if !ref.Equal(n2.CanonVars(), n1.CanonVars()) {
+		return pbt.Bad("normalization is not idempotent on variables\n first: %s\nsecond: %s%s", ref.Canon(n1.CanonVars()), ref.Canon(n2.CanonVars()), ctx())
 	}
 	// classes
 	for _, f := range c.Op.Features {
